@@ -3,9 +3,10 @@ C17 — how the installed reader / writer classes are wired (regenerated `Gen/Pl
 `unicode_io` and the entry-point methods each class overrides below BaseParser / BaseWriter).
 
 Kept apart from `Props/C17.lean` because this table is the one that differs between a tree with and
-without the proposed fix C17-2 (YAML plug-ins): every installed class must be wired in one of the ways
-`Model/IO.lean` models, namely
-  readers  `.base u` (only `parse_stream` overridden), `.bibtex`, `.bibtexml`
+without the proposed fixes C17-2 (YAML plug-ins) and C17-4 (BibTeXML reader): every installed class must
+be wired in one of the ways `Model/IO.lean` models, namely
+  readers  `.base u` (only `parse_stream` overridden), `.bibtex` (`unicode_io`, `parse_string` is the text
+           core and `parse_stream` reads the stream and calls it: BibTeX, and BibTeXML after C17-4)
   writers  `.base u` (only `write_stream` overridden), `.bibtexml`
 and the three formats must be wired as the theorems of `Props/C17.lean` are applied to them.
 An override added, removed or changed in /repo breaks the `decide`.
@@ -21,7 +22,7 @@ theorem C17_classes_wf :
     writerKindsKnown Gen.writerClasses = true ∧
     (Gen.readerClasses.map fun c => (c.1, readerKindOf c.2.1 c.2.2)) =
       [("pybtex.database.input.bibtex:Parser".toList, some .bibtex),
-       ("pybtex.database.input.bibtexml:Parser".toList, some .bibtexml),
+       ("pybtex.database.input.bibtexml:Parser".toList, some .bibtex),
        ("pybtex.database.input.bibyaml:Parser".toList, some (.base true))] ∧
     (Gen.writerClasses.map fun c => (c.1, writerKindOf c.2.1 c.2.2)) =
       [("pybtex.database.output.bibtex:Writer".toList, some (.base true)),
